@@ -79,16 +79,8 @@ def harness(cfg, B):
 
 
 def _operator(cfg, B):
-    d = cm.build1d(B, dict(cfg, bc='sym') if cfg['bc'] == 'open' else cfg)
+    d = cm.build1d(B, cfg)
     rhs, mesh, n, model = d['rhs'], d['mesh'], d['n'], d['model']
-    if cfg['bc'] == 'open':
-        if cfg['model'] == 'euler1d':
-            rhs.bcL = {'type': 'insub', 'ptot': B.pos('ptot', 3.0, 4.0), 'rttot': B.pos('rttot', 0.5, 3.0)}
-            rhs.bcR = {'type': 'outsub', 'p': B.pos('pout', 0.2, 1.0)}
-        else:
-            prm = [B.pos('dir%d' % k, 0.5, 2.0) for k in range(model.neq)]
-            rhs.bcL = {'type': 'dirichlet', 'prim': prm}
-            rhs.bcR = {'type': 'dirichlet', 'prim': list(prm)}
     R = rhs.rhs(d['field'])
     # geometric cell sizes from the faces (not mesh.vol(): a stale or wrong metric inside the library must not cancel out)
     vol = [mesh.xf[i + 1] - mesh.xf[i] for i in range(n)]
